@@ -79,6 +79,8 @@ pub enum Combinator {
     /// the store's scans have.
     Stack { children: usize, assign: Vec<u16>, cuts: Vec<u16>, ts: u64, lo: B, hi: B },
     Lazy,
+    /// `Block::range_scan` / `Sst::range_scan`: the table's own Bounds(Pruning(cursor)) stack
+    RangeScan { ts: u64, lo: B, hi: B, sst: bool },
 }
 
 #[derive(Clone, Debug, Serialize, Deserialize)]
@@ -94,11 +96,12 @@ fn ts_strategy() -> impl Strategy<Value = u64> {
 }
 
 fn comb_strategy(kind: &'static str) -> BoxedStrategy<CombCase> {
-    let (keys, vers) = match kind {
-        "lazy" | "stack" => (14, 4),
-        _ => (10, 5),
+    let (keys, vers, big) = match kind {
+        "lazy" | "stack" => (14, 4, false),
+        "range-scan" => (16, 4, true),
+        _ => (10, 5, false),
     };
-    tables::table(keys, vers, false)
+    tables::table(keys, vers, big)
         .prop_flat_map(move |t| {
             let universe = gens::universe(t.family, 30);
             let n = t.entries.len();
@@ -108,11 +111,12 @@ fn comb_strategy(kind: &'static str) -> BoxedStrategy<CombCase> {
                 "pruning" => ts_strategy().prop_map(|ts| Combinator::Pruning { ts }).boxed(),
                 "bounds" => (bound(universe.clone()), bound(universe.clone())).prop_map(|(lo, hi)| Combinator::Bounds { lo, hi }).boxed(),
                 "lazy" => Just(Combinator::Lazy).boxed(),
+                "range-scan" => (ts_strategy(), bound(universe.clone()), bound(universe.clone()), any::<bool>()).prop_map(|(ts, lo, hi, sst)| Combinator::RangeScan { ts, lo, hi, sst }).boxed(),
                 _ => (1usize..5, prop::collection::vec(any::<u16>(), n), prop::collection::vec(any::<u16>(), 0..4), ts_strategy(), bound(universe.clone()), bound(universe.clone()))
                     .prop_map(|(children, assign, cuts, ts, lo, hi)| Combinator::Stack { children, assign, cuts, ts, lo, hi })
                     .boxed(),
             };
-            (Just(t), tables::build_opts(), comb, tables::program(universe, 40))
+            (Just(t), tables::build_opts(), comb, tables::program_maybe_fresh(universe, 40))
         })
         .prop_map(|(table, opts, comb, prog)| CombCase { table, opts, comb, prog })
         .boxed()
@@ -150,6 +154,20 @@ fn blocks(children: &[Vec<Entry>], o: &BuildOpts) -> Result<Vec<sst::block::Bloc
         .collect()
 }
 
+/// Run the program against a freshly constructed cursor.  When the program starts with a relative
+/// call the position the constructor left is observed first: a fresh cursor is before the first
+/// entry (every constructor positions itself with seek_to_first; callers such as
+/// sst/benches/block_cursor.rs and the cursors lsmtk hands out are stepped with next() without a
+/// seek), so it shows no entry and the program continues from there.
+fn run_program<C: Cursor>(what: &str, c: &mut C, reference: &mut RefCursor, prog: &[CursorOp]) -> Result<(), (String, String)> {
+    if matches!(prog.first(), Some(CursorOp::Next) | Some(CursorOp::Prev)) {
+        if let Some(e) = tables::current(c) {
+            return Err((format!("{what}:fresh-position"), format!("{what}: a freshly constructed cursor shows {} before any call", tables::show_entry(Some(&e)))));
+        }
+    }
+    tables::compare_program(what, c, reference, prog)
+}
+
 pub struct Combinators(pub &'static str);
 
 impl Property for Combinators {
@@ -160,6 +178,7 @@ impl Property for Combinators {
     fn cases(&self, tier: Tier) -> u64 {
         match self.0 {
             "lazy" | "stack" => tier.pick(8_000, 120_000),
+            "range-scan" => tier.pick(6_000, 100_000),
             _ => tier.pick(18_000, 300_000),
         }
     }
@@ -176,6 +195,9 @@ impl Property for Combinators {
         }
         if reversal {
             o.label("direction-reversal");
+        }
+        if matches!(c.prog.first(), Some(CursorOp::Next) | Some(CursorOp::Prev)) {
+            o.label("fresh-cursor-stepped-before-any-seek");
         }
         let fail = |o: &mut Outcome, r: Result<(), (String, String)>| {
             if let Err((s, m)) = r {
@@ -210,7 +232,7 @@ impl Property for Combinators {
                 match MergingCursor::new(cursors) {
                     Ok(mut m) => {
                         let mut r = RefCursor::new(entries.clone());
-                        let res = tables::compare_program("merging", &mut m, &mut r, &c.prog);
+                        let res = run_program("merging", &mut m, &mut r, &c.prog);
                         fail(&mut o, res);
                     }
                     Err(e) => o.fail("merging:new-error", format!("{e:?}")),
@@ -236,7 +258,7 @@ impl Property for Combinators {
                 match ConcatenatingCursor::new(cursors) {
                     Ok(mut m) => {
                         let mut r = RefCursor::new(entries.clone());
-                        let res = tables::compare_program("concat", &mut m, &mut r, &c.prog);
+                        let res = run_program("concat", &mut m, &mut r, &c.prog);
                         fail(&mut o, res);
                     }
                     Err(e) => o.fail("concat:new-error", format!("{e:?}")),
@@ -258,7 +280,7 @@ impl Property for Combinators {
                 match PruningCursor::new(block.cursor(), *ts) {
                     Ok(mut p) => {
                         let mut r = RefCursor::new(want);
-                        let res = tables::compare_program("pruning", &mut p, &mut r, &c.prog);
+                        let res = run_program("pruning", &mut p, &mut r, &c.prog);
                         fail(&mut o, res);
                     }
                     Err(e) => o.fail("pruning:new-error", format!("{e:?}")),
@@ -280,7 +302,7 @@ impl Property for Combinators {
                 match BoundsCursor::new(block.cursor(), &lo.to_bound(), &hi.to_bound()) {
                     Ok(mut p) => {
                         let mut r = RefCursor::new(want);
-                        let res = tables::compare_program("bounds", &mut p, &mut r, &c.prog);
+                        let res = run_program("bounds", &mut p, &mut r, &c.prog);
                         fail(&mut o, res);
                     }
                     Err(e) => o.fail("bounds:new-error", format!("{e:?}")),
@@ -304,13 +326,48 @@ impl Property for Combinators {
                         Ok(table.cursor())
                     });
                     let mut r = RefCursor::new(entries.clone());
-                    let res = tables::compare_program("lazy", &mut lazy, &mut r, &c.prog);
+                    let res = run_program("lazy", &mut lazy, &mut r, &c.prog);
                     fail(&mut o, res);
                 }
                 if opens.get() > 1 {
                     o.label("re-instantiated");
                 }
                 let _ = std::fs::remove_file(&path);
+            }
+            Combinator::RangeScan { ts, lo, hi, sst } => {
+                let want = restrict(&prune(entries, *ts), lo, hi);
+                o.nontrivial = !want.is_empty() && want.len() < entries.len() && has_tomb && reversal;
+                o.label(if *sst { "sst-range-scan" } else { "block-range-scan" });
+                if want.is_empty() {
+                    o.label("empty-result");
+                }
+                if *sst {
+                    let path = ctx.scratch.join("c11-range-scan.sst");
+                    match tables::build_sst(&path, entries, &c.opts) {
+                        Ok(t) => match t.range_scan(&lo.to_bound(), &hi.to_bound(), *ts) {
+                            Ok(mut p) => {
+                                let mut r = RefCursor::new(want);
+                                let res = run_program("range-scan", &mut p, &mut r, &c.prog);
+                                fail(&mut o, res);
+                            }
+                            Err(e) => o.fail("range-scan:new-error", format!("{e:?}")),
+                        },
+                        Err(e) => o.fail("range-scan:build-error", format!("{e:?}")),
+                    }
+                    let _ = std::fs::remove_file(&path);
+                } else {
+                    match tables::build_block(entries, c.opts.bytes_ri, c.opts.pairs_ri) {
+                        Ok(b) => match b.range_scan(&lo.to_bound(), &hi.to_bound(), *ts) {
+                            Ok(mut p) => {
+                                let mut r = RefCursor::new(want);
+                                let res = run_program("range-scan", &mut p, &mut r, &c.prog);
+                                fail(&mut o, res);
+                            }
+                            Err(e) => o.fail("range-scan:new-error", format!("{e:?}")),
+                        },
+                        Err(e) => o.fail("range-scan:build-error", format!("{e:?}")),
+                    }
+                }
             }
             Combinator::Stack { children, assign, cuts, ts, lo, hi } => {
                 // child 0 is a concatenation of lazily opened ssts; the others are blocks.
@@ -354,7 +411,7 @@ impl Property for Combinators {
                         match built {
                             Ok(mut s) => {
                                 let mut r = RefCursor::new(want);
-                                let res = tables::compare_program("stack", &mut s, &mut r, &c.prog);
+                                let res = run_program("stack", &mut s, &mut r, &c.prog);
                                 fail(&mut o, res);
                             }
                             Err(e) => o.fail("stack:new-error", format!("{e:?}")),
@@ -385,4 +442,5 @@ pub fn check() -> Check {
     .pbt(Combinators("bounds"))
     .pbt(Combinators("lazy"))
     .pbt(Combinators("stack"))
+    .pbt(Combinators("range-scan"))
 }
